@@ -129,6 +129,7 @@ struct H30 : hu::Harness {
     if (!st.bad.empty()) { out.cls = st.bad[0].find("unexpected exception") == 0 ? "unexpected-exception" : "wrong-verdict"; out.detail = st.bad[0]; if (st.bad.size() > 1) out.detail += " (+" + std::to_string(st.bad.size() - 1) + " more)"; }
     out.probes[nt > 1 ? "runs_multi_thread" : "runs_single_thread"] = 1;
     out.probes["commands"] = st.cmds;
+    if (cfg.sigchld_ignored) out.probes["runs_started_with_sigchld_ignored"] = 1;
     if (zombies) out.probes["info_children_left_unreaped"] = zombies;
     if (fds) out.probes["info_simulated_fds_left_open"] = fds;
     // order probes: who reaped, per run
